@@ -262,7 +262,7 @@ class Ctx:
         p = self.run_sfh(["script"], text, timeout=timeout, variant=variant, env=env)
         return p.stdout.split("\n")[:-1] if p.stdout.endswith("\n") else p.stdout.split("\n"), p.returncode, p.stderr
 
-    TRANSCRIPT_PREFIXES = ("ret=", "open=", "len=", "it=", "err=", "msg=", "size_ret=", "bad-", "ok", "calls=", "CRASH", "ABORT", "TIMEOUT")
+    TRANSCRIPT_PREFIXES = ("ret=", "open=", "len=", "it=", "err=", "msg=", "size_ret=", "bad-", "ok", "calls=", "balance=", "mask=", "CRASH", "ABORT", "TIMEOUT")
 
     def batch(self, scripts, variant="asan", op_timeout=10, workers=16, env=None, clean=False):
         """scripts: list of (name, text). Runs them in forked children inside `workers` harness processes.
